@@ -28,6 +28,8 @@ ASSUMPTIONS = [
     "qfrc_constraint) of the converged solve (<= 1e-9 relative by the precondition), both amplified by M and J' D J",
     "rows whose efc_state differs between the forward and the inverse evaluation (argument on a zone boundary / cone apex) are compared through "
     "qfrc_constraint only (doc Reduced primal problem: s() is once-continuously-differentiable, so the force is continuous but the zone label is not)",
+    "cases whose inverse is numerically undefined are skipped and counted: doc Dual problem 'in the limit R -> 0 corresponding to hard constraints the "
+    "inverse is no longer defined' - decided by the harness from efc_D: 8 eps (|J||qacc| + |aref|) D mapped by |J|' exceeds the tolerance",
     "noslip is off: doc Algorithms/NoSlip 'this cascade of optimization steps no longer solves a single well-defined optimization problem'",
     "RK4 is excluded from the discrete-time part (doc invdiscrete: 'for all integrators other than RK4')",
     "xfrc_applied acts at the body centre of mass (doc mjData.xfrc_applied: 'Cartesian force/torque applied at body center of mass'); the reference "
@@ -117,7 +119,7 @@ def forward_terms(L, m, d, P, T):
     nefc = d.s("nefc")
     F["nefc"] = nefc
     af = d.arena_fields()
-    for k in ("efc_force", "efc_state", "efc_D", "efc_type", "efc_id"):
+    for k in ("efc_force", "efc_state", "efc_D", "efc_type", "efc_id", "efc_aref"):
         F[k] = np.array(d.arena(k, af)).ravel()[:nefc]
     F["J"] = efcrows.dense_J(L, m, d, af)[0] if nefc else np.zeros((0, nv))
     M = np.zeros((nv, nv))
@@ -131,12 +133,15 @@ def forward_terms(L, m, d, P, T):
     # the engine's own J' xfrc must agree with the reference one: qfrc_smooth = passive - bias + applied + actuator + J'xfrc
     F["xfrc_engine"] = F["qfrc_smooth"] - (F["qfrc_passive"] - F["qfrc_bias"] + F["qfrc_applied"] + F["qfrc_actuator"])
     F["grad"] = M @ F["qacc"] - F["qfrc_smooth"] - F["qfrc_constraint"]
+    # first-order effect of rounding in jar = J qacc - aref on the analytic inverse force -D jar, mapped to joint space
+    jar_mag = np.abs(F["J"]) @ np.abs(F["qacc"]) + np.abs(F["efc_aref"])
+    F["round_f"] = np.abs(F["J"]).T @ (F["efc_D"] * (8 * np.finfo(float).eps * jar_mag))
     return F
 
 
-def compare_inverse(m, d2, F, P, viol, label, extra_tol=None):
+def compare_inverse(m, d2, F, P, viol, label, extra_tol=None, round_tol=None):
     """qfrc_inverse / efc_force / qfrc_constraint of the inverse twin against the forward terms"""
-    tol = RTOL * F["scale"] + (extra_tol if extra_tol is not None else 0.0)
+    tol = RTOL * F["scale"] + (extra_tol if extra_tol is not None else 0.0) + (round_tol if round_tol is not None else 0.0)
     qi = np.array(d2["qfrc_inverse"])
     e = np.abs(qi - F["expected"])
     P.note_max("relerr_qfrc_inverse_%s" % label, float((e / F["scale"]).max(initial=0)))
@@ -204,6 +209,11 @@ def check_case(L, m, d1, d2, T, state, o, P, witness):
         P.count("skipped_not_converged")
         P.count("skipped_not_converged_%s_%s" % (o["solver"][6:], o["cone"][7:10]))
         return False, nefc
+    if (F["round_f"] > RTOL * F["scale"]).any():
+        # doc Dual problem: "in the limit R -> 0 corresponding to hard constraints the inverse is no longer defined": with efc_D = 1/R
+        # near 1/mjMINVAL the rounding of jar alone moves the inverse force by more than the comparison tolerance
+        P.count("skipped_inverse_ill_conditioned_R_near_zero")
+        return False, nefc
     P.count("converged")
     if nefc:
         P.count("converged_with_constraints")
@@ -225,7 +235,7 @@ def check_case(L, m, d1, d2, T, state, o, P, witness):
     d2.set_state(state, sig)
     d2["qacc"][:] = F["qacc"]
     L.call("mj_inverse", m, d2, ret=None)
-    if not compare_inverse(m, d2, F, P, viol, "continuous"):
+    if not compare_inverse(m, d2, F, P, viol, "continuous", extra_tol=None, round_tol=F["round_f"]):
         return True, nefc
 
     # ---- built-in comparison
@@ -260,7 +270,7 @@ def check_case(L, m, d1, d2, T, state, o, P, witness):
     except np.linalg.LinAlgError:
         P.count("skipped_discrete_singular_M")
         return True, nefc
-    extra = np.abs(F["M"]) @ F["delta_a"] * 4 + np.abs(F["J"]).T @ (F["efc_D"] * (np.abs(F["J"]) @ F["delta_a"])) * 4
+    extra = F["round_f"] + np.abs(F["M"]) @ F["delta_a"] * 4 + np.abs(F["J"]).T @ (F["efc_D"] * (np.abs(F["J"]) @ F["delta_a"])) * 4
     if (extra > RTOL * F["scale"]).any():
         # the bound on what rounding / the solver residual can do to the discrete inverse exceeds the comparison tolerance itself:
         # the case cannot decide anything at 1e-6 (stiff constraints on light bodies, CG residuals); counted, not compared
@@ -405,6 +415,8 @@ def run(ctx):
     n = max(1, ctx.counters.get("cases", 0))
     if ctx.counters.get("engine_error_skipped", 0) > 0.1 * n:
         ctx.inconclusive("too many cases skipped on engine errors (%d of %d)" % (ctx.counters.get("engine_error_skipped", 0), n))
+    if ctx.counters.get("skipped_inverse_ill_conditioned_R_near_zero", 0) > 0.1 * n:
+        ctx.inconclusive("more than 10 %% of the cases have a numerically undefined inverse (%d of %d)" % (ctx.counters["skipped_inverse_ill_conditioned_R_near_zero"], n))
     if ctx.counters.get("skipped_not_converged", 0) > 0.2 * n:
         ctx.inconclusive("more than 20 %% of the cases did not converge (%d of %d)" % (ctx.counters.get("skipped_not_converged", 0), n))
     nd = sum(ctx.counters.get("discrete_cases_" + k, 0) for k in ("EULER", "IMPLICIT", "IMPLICITFAST"))
